@@ -24,10 +24,12 @@
 (* context's error.                                                         *)
 (*                                                                          *)
 (* Interface for other modules (documented in notes/C03.md):                *)
-(*   state      vars == <<toks, pos, err, closed, cancelled, pc, nxt, hist>>*)
+(*   state      vars == <<toks, pos, err, closed, cancelled, pc, nxt, hist,  *)
+(*                       after>>   (after = tokens begun after a stop)     *)
 (*   actions    CallScan, LoopCheck, LoopToken, CallClose, CallErr, Cancel  *)
 (*   history    hist = sequence of [op, ret, id, stopped, st] call records  *)
-(*   Judges     StreamInv, CompleteInv, LaterScansFalse, ErrPrecedence      *)
+(*   Judges     StreamInv, CompleteInv, LaterScansFalse, ErrPrecedence,     *)
+(*              ReadAheadInv (Model) / ReadAheadOK(events) (recorded runs)  *)
 (*   RecHist    call records rebuilt from a recorded event log, so that the  *)
 (*              Judges can be evaluated on the real scanner's behaviour     *)
 (*   XmlScanTrace.tla validates recorded event logs against the actions.    *)
@@ -42,8 +44,9 @@ VARIABLES toks,        \* the input (fixed per behaviour)
           closed, cancelled,
           pc,          \* "idle" | "check" | "token"
           nxt,         \* id of the object last decoded ("nil" = none)
-          hist         \* call records, see Rec
-vars == <<toks, pos, err, closed, cancelled, pc, nxt, hist>>
+          hist,        \* call records, see Rec
+          after        \* history: tokens the scanner began to read after Close / cancellation had taken effect
+vars == <<toks, pos, err, closed, cancelled, pc, nxt, hist, after>>
 
 CtxDone == closed \/ cancelled            \* the scanner's own context is a child of the caller's
 Stopped == err # "none" \/ CtxDone
@@ -52,7 +55,7 @@ St == [err |-> err, closed |-> closed, cancelled |-> cancelled]
 Rec(op, ret, id, stopped, st) == [op |-> op, ret |-> ret, id |-> id, stopped |-> stopped, st |-> st]
 
 InitWith(ts) == /\ toks = ts /\ pos = 0 /\ err = "none" /\ closed = FALSE /\ cancelled = FALSE
-                /\ pc = "idle" /\ nxt = "nil" /\ hist = << >>
+                /\ pc = "idle" /\ nxt = "nil" /\ hist = << >> /\ after = 0
 
 \* hist's last entry while a Scan is in progress is the open call [op |-> "Scan", ret |-> "pending", stopped |-> at call time]
 Return(ret, id, e) == hist' = [hist EXCEPT ![Len(hist)] = Rec("Scan", ret, id, @.stopped, [St EXCEPT !.err = e])]
@@ -60,12 +63,12 @@ Return(ret, id, e) == hist' = [hist EXCEPT ![Len(hist)] = Rec("Scan", ret, id, @
 CallScan == /\ pc = "idle"
             /\ hist' = Append(hist, Rec("Scan", "pending", "nil", Stopped, St))
             /\ pc' = "check"
-            /\ UNCHANGED <<toks, pos, err, closed, cancelled, nxt>>
+            /\ UNCHANGED <<toks, pos, err, closed, cancelled, nxt, after>>
 LoopCheck == /\ pc = "check"
              /\ IF err # "none" \/ CtxDone
                 THEN pc' = "idle" /\ Return("false", "nil", err)
                 ELSE pc' = "token" /\ UNCHANGED hist
-             /\ UNCHANGED <<toks, pos, err, closed, cancelled, nxt>>
+             /\ UNCHANGED <<toks, pos, err, closed, cancelled, nxt, after>>
 LoopToken ==
   /\ pc = "token"
   /\ IF pos = Len(toks)
@@ -75,19 +78,20 @@ LoopToken ==
             [] t.k = "skip"   -> pos' = pos + 1 /\ pc' = "check" /\ UNCHANGED <<err, nxt, hist>>
             [] t.k = "obj"    -> pos' = pos + 1 /\ nxt' = t.id /\ pc' = "idle" /\ Return("true", t.id, err) /\ UNCHANGED err
             [] t.k = "badobj" -> pos' = pos + 1 /\ nxt' = t.id /\ err' = "err" /\ pc' = "idle" /\ Return("false", "nil", "err")
+  /\ after' = (IF CtxDone /\ pos < Len(toks) THEN after + 1 ELSE after)
   /\ UNCHANGED <<toks, closed, cancelled>>
 CallClose == /\ pc = "idle"
              /\ closed' = TRUE
              /\ hist' = Append(hist, Rec("Close", "nil", "nil", Stopped, [St EXCEPT !.closed = TRUE]))
-             /\ UNCHANGED <<toks, pos, err, cancelled, pc, nxt>>
+             /\ UNCHANGED <<toks, pos, err, cancelled, pc, nxt, after>>
 ErrValue == IF err = "eof" THEN "nil" ELSE IF err = "err" THEN "err" ELSE IF closed THEN "closed" ELSE IF cancelled THEN "ctx" ELSE "nil"
 CallErr == /\ pc = "idle"
            /\ hist' = Append(hist, Rec("Err", ErrValue, "nil", Stopped, St))
-           /\ UNCHANGED <<toks, pos, err, closed, cancelled, pc, nxt>>
+           /\ UNCHANGED <<toks, pos, err, closed, cancelled, pc, nxt, after>>
 \* the caller's context: any time, also in the middle of a Scan (another goroutine)
 Cancel == /\ ~cancelled
           /\ cancelled' = TRUE
-          /\ UNCHANGED <<toks, pos, err, closed, pc, nxt, hist>>
+          /\ UNCHANGED <<toks, pos, err, closed, pc, nxt, hist, after>>
 
 CONSTANTS MaxCalls, TokenSeqs
 Init == \E ts \in TokenSeqs : InitWith(ts)
@@ -114,6 +118,17 @@ ErrPrecedenceOK(h) == \A i \in 1 .. Len(h) : (h[i].op = "Err" /\ AllowedErr(h[i]
 \* a Scan that returns false has a reason
 FalseHasReason(h) == \A i \in 1 .. Len(h) : (h[i].op = "Scan" /\ h[i].ret = "false") => (h[i].st.err # "none" \/ h[i].st.closed \/ h[i].st.cancelled)
 
+\* C07: "the call returns without consuming the rest of the input".  The Model begins at most ONE more token after a stop
+\* (the one it was about to read when a concurrent cancellation took effect; none after Close or a cancellation between
+\* calls).  On recorded runs the clause is judged with slack: what is read after the stop must be bounded by a small
+\* constant, not by the length of what is left - at most ReadAheadSlack tokens are begun after the first stop event.
+ReadAheadInv == after <= 1
+ReadAheadSlack == 8
+IsStopEvent(x) == x.e \in {"fired", "cancel"} \/ (x.e = "ret" /\ x.op = "Close")
+ReadAheadOK(ev) ==
+  \A i \in 1 .. Len(ev) :
+     (IsStopEvent(ev[i]) /\ \A k \in 1 .. i - 1 : ~IsStopEvent(ev[k])) =>
+        Cardinality({k \in i + 1 .. Len(ev) : ev[k].e = "tok"}) <= ReadAheadSlack
 StreamInv == StreamOK(toks, hist)
 CompleteInv == CompleteOK(toks, hist)
 LaterScansFalse == LaterScansFalseOK(hist)
